@@ -562,7 +562,13 @@ class _Num(Sym):
             return _mk(kind, ta * tb, dt)
         if op == 'truediv':
             if kind == 'i':
+                if not z3.is_int_value(z3.simplify(tb)) and not z3.is_int_value(z3.simplify(ta)):
+                    # symbolic / symbolic: concretise the integer divisor (keeps arithmetic linear)
+                    tb = z3.IntVal(_ENG.concretize(tb))
                 ta, tb = z3.ToReal(ta), z3.ToReal(tb)
+            elif z3.is_app_of(tb, z3.Z3_OP_TO_REAL) and not z3.is_rational_value(z3.simplify(ta)) \
+                    and not z3.is_int_value(z3.simplify(tb.arg(0))):
+                tb = z3.ToReal(z3.IntVal(_ENG.concretize(tb.arg(0))))
             if z3.is_true(z3.simplify(tb == 0)):
                 raise ZeroDivisionError('division by zero')
             fdt = None if dt is None else (dt if dt.kind == 'f' else _np.dtype('float64'))
